@@ -258,6 +258,40 @@ def rec_case(draw, max_obj=5, max_sp=4, min_obj=1, min_sp=1, costs="coherent", l
     return case
 
 
+@st.composite
+def deep_chain_case(draw, min_obj=6, max_obj=8, max_sp=3, max_fam=5, ordered=False, costs="coherent"):
+    """A caterpillar object tree (one chain of min_obj-1 .. max_obj-1 nested ancestors) over few species with
+    independently drawn leaf contents: the shape on which inheritance runs through several consecutive
+    ancestors (content kept, gained or lost three and more levels below the node that holds it)."""
+    nsp = draw(st.integers(1, max_sp))
+    species = SPECIES_NAMES[:nsp]
+    stree = draw(nested_tree(species))
+    nobj = draw(st.integers(min_obj, max_obj))
+    los = {}
+    for i in range(nobj):
+        s = species[draw(st.integers(0, nsp - 1))]
+        los[f"{s}_{i}"] = s
+    leaves = list(los)
+    chain = leaves[0]
+    for leaf in leaves[1:]:
+        chain = (chain, leaf) if draw(st.booleans()) else (leaf, chain)
+    nf = draw(st.integers(3, max_fam))
+    fams = [f"g{i}" for i in range(nf)]
+    order = draw(st.permutations(fams))
+    syn = {}
+    for leaf in leaves:
+        mask = draw(st.integers(1, 2**nf - 1))
+        syn[leaf] = [f for i, f in enumerate(order) if mask >> i & 1]
+    case = {
+        "object_tree": nested_to_newick(chain, "O"),
+        "species_tree": nested_to_newick(stree, "S"),
+        "leaf_object_species": los,
+        "leaf_syntenies": syn,
+        "costs": draw(coherent_costs(labelled=True)) if costs == "coherent" else dict(DEFAULT),
+    }
+    return case
+
+
 # ---------------------------------------------------------------------------
 # exhaustive enumerators
 # ---------------------------------------------------------------------------
